@@ -18,6 +18,9 @@ pub struct CsrShape {
     pub custom_crit: u8,
     /// number of caller attributes (3-arc symbolic OID, 5-byte `SET { OCTET STRING { x } }` value)
     pub attrs: u8,
+    /// 1: the caller additionally supplies (first in its list) an attribute whose type is
+    /// extensionRequest itself, value `SET { SEQUENCE {} }`
+    pub attr_req: u8,
     pub strlen: u8,
     pub alg: u8,
     pub sign_fails: bool,
@@ -78,6 +81,19 @@ pub struct CsrCtx {
     pub attr_oids: [[u64; 3]; 2],
     pub attr_vals: [[u8; 5]; 2],
     pub n_attrs: usize,
+    /// the caller also supplied an attribute of type extensionRequest (value `SET { SEQUENCE {} }`)
+    pub req_attr: bool,
+}
+
+/// The caller's own extensionRequest-typed attribute: SEQ { OID extensionRequest, SET { SEQ {} } }.
+pub const CALLER_REQ_VALUE: [u8; 4] = [SET, 2, SEQ, 0];
+fn ref_caller_req_attr() -> Enc {
+    let mut inner = Enc::new();
+    inner.oid(OID_EXT_REQ);
+    inner.extend(&CALLER_REQ_VALUE);
+    let mut out = Enc::new();
+    out.tlv(SEQ, inner.bytes());
+    out
 }
 
 /// Expected DER of a caller attribute: SEQ { OID(3 one-byte-class arcs), values }.
@@ -101,14 +117,19 @@ pub fn oracle_c07(der: &[u8], p: &CertificateParams, x: &CsrCtx) {
     let mut n_req = 0usize;
     let mut n_other = 0usize;
     let mut matched = [false; 2];
+    // a caller attribute that happens to be of type extensionRequest is a caller attribute like
+    // any other (byte-for-byte), and does not stand in for the request built from the parameters
+    let mut matched_req = false;
     let mut cur = Cur::of(&c.attrs);
     let mut guard = 0;
-    while !cur.done() && guard < 4 {
+    while !cur.done() && guard < 5 {
         guard += 1;
         let a = must!(cur.expect(der, SEQ), "C07:attribute-undecodable");
         let mut ac = Cur::of(&a);
         let oid = must!(ac.expect(der, OID), "C07:attribute-undecodable");
-        if oid_is(der, &oid, OID_EXT_REQ) {
+        if x.req_attr && !matched_req && oid_is(der, &oid, OID_EXT_REQ) && bytes_eq(der, a.hdr, a.end, ref_caller_req_attr().bytes()) {
+            matched_req = true;
+        } else if oid_is(der, &oid, OID_EXT_REQ) {
             n_req += 1;
             let vals = must!(ac.expect(der, SET), "C07:extension-request-values");
             assert!(ac.done(), "C07:extension-request-trailing");
@@ -135,6 +156,7 @@ pub fn oracle_c07(der: &[u8], p: &CertificateParams, x: &CsrCtx) {
     assert!(cur.done(), "C07:too-many-attributes");
     assert!(n_req == if want_req { 1 } else { 0 }, "C07:extension-request-presence");
     assert!(n_other == x.n_attrs, "C07:caller-attribute-dropped");
+    assert!(matched_req == x.req_attr, "C07:caller-extension-request-attribute-dropped");
 }
 
 fn check_requested_extensions(der: &[u8], seq: &Tlv, p: &CertificateParams) {
@@ -265,8 +287,11 @@ pub fn run(s: &CsrShape) {
     let mut st = Stores::new(&cs);
     let p = crate::cert::build_params(&cs, &mut st).params;
     let (key, pk, sig) = remote_key::<2, 2>(1, s.alg as usize, s.sign_fails);
-    let mut x = CsrCtx { subject_pk: pk, subject_sig: sig, alg: s.alg as usize, attr_oids: [[0; 3]; 2], attr_vals: [[0; 5]; 2], n_attrs: s.attrs as usize };
+    let mut x = CsrCtx { subject_pk: pk, subject_sig: sig, alg: s.alg as usize, attr_oids: [[0; 3]; 2], attr_vals: [[0; 5]; 2], n_attrs: s.attrs as usize, req_attr: s.attr_req != 0 };
     let mut attrs = Vec::new();
+    if s.attr_req != 0 {
+        attrs.push(Attribute { oid: OID_EXT_REQ, values: CALLER_REQ_VALUE.to_vec() });
+    }
     let mut i = 0;
     while i < s.attrs as usize {
         // caller attributes are handed over in DESCENDING encoding order, so an unsorted SET OF is visible
